@@ -34,9 +34,9 @@ func (ex *Exec) call(instr ssa.Instruction, cc *ssa.CallCommon, pc *Term, st *St
 		var res Value
 		cfc := ex.vc.W.Contr[ex.pkg].Funcs[key]
 		inline := false
-		if ex.fc != nil && ex.fc.Has("inline", key) {
+		if ex.fc != nil && (ex.fc.Has("inline", key) || ex.fc.Has("inline", name)) {
 			inline = true
-		} else if ex.fc != nil && ex.fc.Has("modular", key) {
+		} else if ex.fc != nil && (ex.fc.Has("modular", key) || ex.fc.Has("modular", name)) {
 			inline = false
 		} else if cfc != nil && cfc.Pure {
 			inline = true
@@ -54,6 +54,10 @@ func (ex *Exec) call(instr ssa.Instruction, cc *ssa.CallCommon, pc *Term, st *St
 		if c, ok := instr.(*ssa.Call); ok && ex.onCall != nil {
 			res = ex.onCall(ex, c, key, ord, res, pc, st)
 		}
+		if ex.callRes == nil {
+			ex.callRes = map[string]Value{}
+		}
+		ex.callRes[fmt.Sprintf("%s#%d", name, ord)] = res
 		return res
 	}
 	ex.unsupported("call of %T", cc.Value)
